@@ -4,6 +4,7 @@
    - the line-end flags CRLF_LINE / LF_LINE commute with mp_hd (nothing tests them);
    - in data mode the is_line argument is irrelevant. *)
 Require Import Htp.Model.Base Htp.Model.MBstr Htp.Model.MMultipart Htp.Spec.SMultipart.
+Require Import Btauto.
 
 Lemma mp_bb_append_assoc b x y : mp_bb_append (mp_bb_append b x) y = mp_bb_append b (x ++ y).
 Proof. destruct b; cbn; [rewrite <- app_assoc|]; reflexivity. Qed.
@@ -72,4 +73,157 @@ Lemma mp_hd_split_line pl a b : mp_dupb pl = false -> b <> [] -> mp_hd (mp_hd pl
 Proof.
   intros Hd Hb. destruct a as [|a0 a]; [reflexivity|].
   apply mp_hd_split; [exact Hd|discriminate|exact Hb].
+Qed.
+
+(* ------------------------------------------------------------------ flags nobody tests commute with mp_hd *)
+Definition mp_fneutral (f : N) : Prop := N.land f c_mp_SEEN_LAST_BOUNDARY = 0%N.
+
+Lemma mp_or_swap fl f g : mp_or (mp_or fl f) g = mp_or (mp_or fl g) f.
+Proof. unfold mp_or. rewrite <- !N.lor_assoc. f_equal. apply N.lor_comm. Qed.
+
+Lemma mp_has_neutral fl f : mp_fneutral f -> mp_has c_mp_SEEN_LAST_BOUNDARY (mp_or fl f) = mp_has c_mp_SEEN_LAST_BOUNDARY fl.
+Proof. intros H. unfold mp_has, mp_or. rewrite N.land_lor_distr_l, H, N.lor_0_r. reflexivity. Qed.
+
+Ltac mp_lor_ac := unfold mp_or; apply N.bits_inj; intros ?n; rewrite !N.lor_spec; btauto.
+Ltac mp_flags_eq := cbn [fst snd]; try reflexivity; f_equal; try reflexivity; mp_lor_ac.
+
+Ltac mp_break :=
+  repeat match goal with
+         | |- context [if ?c then _ else _] => destruct c
+         | |- context [match ?c with _ => _ end] => destruct c
+         end.
+
+Lemma mp_parse_header_flag fl f p d :
+  mp_parse_header (mp_or fl f) p d = (mp_or (fst (mp_parse_header fl p d)) f, snd (mp_parse_header fl p d)).
+Proof.
+  unfold mp_parse_header. mp_break; mp_flags_eq.
+Qed.
+
+Lemma mp_cd_loop_flag fuel : forall rest fl f p,
+  mp_cd_loop fuel rest (mp_or fl f) p = (mp_or (fst (mp_cd_loop fuel rest fl p)) f, snd (mp_cd_loop fuel rest fl p)).
+Proof.
+  induction fuel as [|fuel IH]; intros rest fl f p; cbn [mp_cd_loop]; [reflexivity|].
+  destruct rest as [|r0 rest]; [reflexivity|].
+  destruct (drop_while c_isspace (r0 :: rest)) as [|c r2]; [mp_flags_eq|].
+  destruct (negb (c =? mp_SEMI)%N); [mp_flags_eq|].
+  cbv zeta.
+  destruct (mp_isnil (drop_while c_isspace r2)); [mp_flags_eq|].
+  destruct (mp_isnil _); [mp_flags_eq|].
+  destruct (drop_while c_isspace _) as [|c5 r6]; [mp_flags_eq|].
+  destruct (negb (c5 =? mp_EQ)%N); [mp_flags_eq|].
+  destruct (drop_while c_isspace r6) as [|c7 r8]; [mp_flags_eq|].
+  destruct (negb (c7 =? mp_QUOTE)%N); [mp_flags_eq|].
+  destruct (mp_cd_quoted r8 []) as [[raw r9]|]; [|mp_flags_eq].
+  destruct (mp_beq _ mp_s_name).
+  - destruct (mp_issome (mpp_name p)); [mp_flags_eq|apply IH].
+  - destruct (mp_beq _ mp_s_filename).
+    + destruct (mp_issome (mpp_file p)); [mp_flags_eq|apply IH].
+    + mp_flags_eq.
+Qed.
+
+Lemma mp_process_headers_flag fl f p :
+  mp_process_headers (mp_or fl f) p = (mp_or (fst (mp_process_headers fl p)) f, snd (mp_process_headers fl p)).
+Proof.
+  unfold mp_process_headers, mp_parse_c_d.
+  destruct (mp_hget_c (mpp_headers p) mp_s_cd) as [v|]; [|mp_flags_eq].
+  destruct (negb _); [mp_flags_eq|].
+  rewrite mp_cd_loop_flag. destruct (mp_cd_loop _ _ fl p). reflexivity.
+Qed.
+
+Lemma mp_phd_flag pl p d l f :
+  mp_fneutral f ->
+  mp_part_handle_data (mp_pl_flag pl f) p d l = mp_pl_flag (mp_part_handle_data pl p d l) f.
+Proof.
+  intros Hf. unfold mp_part_handle_data, mp_pl_flag, mp_pl_set_flags.
+  cbn [mpl_flags mpl_mode mpl_dpieces mpl_hpieces mpl_pending mpl_bcount mpl_done mpl_cur].
+  rewrite (mp_has_neutral _ _ Hf).
+  destruct (mpl_mode pl).
+  - destruct l.
+    + destruct (mp_isnil _).
+      * destruct (mpl_pending pl) as [pe|].
+        -- rewrite mp_parse_header_flag. destruct (mp_parse_header (mpl_flags pl) p pe) as [fl1 p1]. cbn [fst snd].
+           rewrite mp_process_headers_flag. destruct (mp_process_headers fl1 p1) as [fl2 p2]. cbn [fst snd].
+           mp_break; reflexivity.
+        -- rewrite mp_process_headers_flag. destruct (mp_process_headers (mpl_flags pl) p) as [fl2 p2]. cbn [fst snd].
+           mp_break; reflexivity.
+      * destruct (mpl_pending pl) as [pe|]; [|reflexivity].
+        destruct (c_isspace _).
+        -- cbn. rewrite (mp_or_swap (mpl_flags pl) f). reflexivity.
+        -- rewrite mp_parse_header_flag. destruct (mp_parse_header (mpl_flags pl) p pe) as [fl1 p1]. reflexivity.
+    + reflexivity.
+  - destruct (mpp_type p); reflexivity.
+Qed.
+
+Lemma mp_hd_flag pl d l f : mp_fneutral f -> mp_hd (mp_pl_flag pl f) d l = mp_pl_flag (mp_hd pl d l) f.
+Proof.
+  intros Hf. unfold mp_hd. destruct d as [|d0 d]; [reflexivity|].
+  change (mpl_cur (mp_pl_flag pl f)) with (mpl_cur pl). change (mpl_bcount (mp_pl_flag pl f)) with (mpl_bcount pl).
+  destruct (mpl_cur pl) as [p|]; [apply mp_phd_flag; exact Hf|].
+  destruct (mpl_bcount pl =? 0).
+  - rewrite <- mp_phd_flag by exact Hf. unfold mp_pl_flag, mp_pl_set_flags. cbn.
+    rewrite (mp_or_swap (mpl_flags pl) f). reflexivity.
+  - rewrite <- mp_phd_flag by exact Hf. reflexivity.
+Qed.
+
+Lemma mp_neutral_crlf : mp_fneutral c_mp_CRLF_LINE. Proof. vm_compute. reflexivity. Qed.
+Lemma mp_neutral_lf : mp_fneutral c_mp_LF_LINE. Proof. vm_compute. reflexivity. Qed.
+
+(* ------------------------------------------------------------------ further facts about mp_hd *)
+Lemma mp_phd_cur pl p d l : exists q, mpl_cur (mp_part_handle_data pl p d l) = Some q.
+Proof. unfold mp_part_handle_data. mp_break; cbn [mpl_cur]; eauto. Qed.
+
+Lemma mp_hd_cur pl d l : d <> [] -> exists q, mpl_cur (mp_hd pl d l) = Some q.
+Proof. intros H. unfold mp_hd. destruct d; [congruence|]. mp_break; apply mp_phd_cur. Qed.
+
+(* no current part => line mode (the mode is only consulted when a part exists) *)
+Definition mp_plwf (pl : mp_pl) : Prop := mpl_cur pl = None -> mpl_mode pl = MpLine.
+
+Lemma mp_plwf_hd pl d l : mp_plwf pl -> mp_plwf (mp_hd pl d l).
+Proof.
+  intros H. destruct d as [|d0 d]; [exact H|]. intros Hc.
+  destruct (mp_hd_cur pl (d0 :: d) l ltac:(discriminate)) as [q Hq]. congruence.
+Qed.
+Lemma mp_plwf_flag pl f : mp_plwf pl -> mp_plwf (mp_pl_flag pl f).
+Proof. exact (fun H => H). Qed.
+Lemma mp_plwf_hb pl : mp_plwf pl -> mp_plwf (mp_hb pl).
+Proof. intros H. unfold mp_hb. destruct (mpl_cur pl) eqn:E; [intros _; reflexivity|exact H]. Qed.
+Lemma mp_plwf_amatch pl : mp_plwf pl -> mp_plwf (mp_amatch pl).
+Proof. intros H. unfold mp_amatch. apply mp_plwf_hb. destruct (mp_has _ _); exact H. Qed.
+
+(* K3 persists while data is handed over *)
+Lemma mp_dupb_hd pl d : mp_dupb pl = true -> mp_dupb (mp_hd pl d false) = true.
+Proof.
+  intros H. destruct d as [|d0 d]; [exact H|].
+  unfold mp_dupb in *. apply andb_true_iff in H. destruct H as [H1 H2].
+  destruct (mpl_cur pl) as [p|] eqn:Ec; [|discriminate]. destruct (mpl_mode pl) eqn:Em; [discriminate|].
+  destruct (mpp_type p) eqn:Et; try discriminate.
+  unfold mp_hd. rewrite Ec. unfold mp_part_handle_data. rewrite Em, Et. cbn. rewrite H1, Et. reflexivity.
+Qed.
+
+(* in data mode (and for the preamble) is_line is not looked at *)
+Lemma mp_hd_line_irrelevant pl d :
+  (mpl_mode pl = MpData /\ mpl_cur pl <> None) \/ (mpl_cur pl = None /\ mpl_bcount pl = 0) ->
+  mp_hd pl d true = mp_hd pl d false.
+Proof.
+  intros H. destruct d as [|d0 d]; [reflexivity|]. unfold mp_hd.
+  destruct H as [[Hm Hc]|[Hc Hb]].
+  - destruct (mpl_cur pl) as [p|]; [|congruence]. unfold mp_part_handle_data. rewrite Hm. reflexivity.
+  - rewrite Hc, Hb. reflexivity.
+Qed.
+
+(* K4 excluded: data handed over before a delimiter is not an open header line *)
+Lemma mp_hd_closed_line pl d : mp_openlineb (mp_hd pl d false) = false -> mp_hd pl d true = mp_hd pl d false.
+Proof.
+  intros H. destruct d as [|d0 d]; [reflexivity|]. unfold mp_hd in *.
+  destruct (mpl_cur pl) as [p|] eqn:Ec.
+  - unfold mp_part_handle_data in *. destruct (mpl_mode pl) eqn:Em; [|reflexivity].
+    cbn in H. destruct (mpl_hpieces pl); discriminate H.
+  - destruct (mpl_bcount pl =? 0); [reflexivity|].
+    unfold mp_part_handle_data in H. cbn in H. discriminate H.
+Qed.
+
+Lemma mp_hd_mode_nl pl d : mpl_cur pl <> None -> mpl_mode (mp_hd pl d false) = mpl_mode pl.
+Proof.
+  intros Hc. destruct d as [|d0 d]; [reflexivity|]. unfold mp_hd. destruct (mpl_cur pl) as [p|]; [|congruence].
+  unfold mp_part_handle_data. destruct (mpl_mode pl); [reflexivity|]. destruct (mpp_type p); reflexivity.
 Qed.
